@@ -784,6 +784,11 @@ func (i *interpreter) indexCheck(idx value, n int) (int, *smt.Term) {
 		if n == 1 {
 			return 0, nil
 		}
+		// an index with only a handful of feasible values is cheaper (and keeps the
+		// state concrete) when forked than when carried as a symbolic table lookup
+		if i.fewValues(t, 12) {
+			return int(i.concretiseTerm(t, "index")), nil
+		}
 		return 0, t
 	}
 	k := asInt64(idx)
